@@ -51,6 +51,13 @@ def _limit_calls(fn, meth):
     return out
 
 
+def _anc(n):
+    p = getattr(n, "_parent", None)
+    while p is not None:
+        yield p
+        p = getattr(p, "_parent", None)
+
+
 def _walks_parent_chain(loop) -> bool:
     if isinstance(loop, ast.While):
         var = norm(loop.test).replace(" is not None", "")
@@ -89,6 +96,15 @@ def run(ctx: Ctx):
                "holder is both consulted before and counted at a booking" if ok else
                f"{fam}: consulted={bool(chk)} but incremented={bool(inc_)} — the counter and its check cover different holders",
                key=f"R05.1|resource|{fam}")
+    # a refusing limit refuses the slot
+    for c in a_own + a_anc:
+        iff = next((p_ for p_ in _anc(c) if isinstance(p_, ast.If) and any(c is x for x in ast.walk(p_.test))), None)
+        neg = iff is not None and any(isinstance(u, ast.UnaryOp) and isinstance(u.op, ast.Not) and any(c is x for x in ast.walk(u.operand))
+                                      for u in ast.walk(iff.test))
+        ok = neg and any(isinstance(s_, ast.Return) and isinstance(s_.value, ast.Constant) and s_.value.value is False for s_ in iff.body)
+        ctx.ob("R05.1", f"{avail.qual}: failing {norm(c)} refuses the slot", (avail, c), ok,
+               "if not limits.ok(slot): return False" if ok else "a limit that refuses the slot does not make available() answer False",
+               key=key_of("R05.1", avail, c, "refuses"))
     # same slot argument
     for c in a_own + a_anc:
         ok = c.args and norm(c.args[0]) == avail.params[1]
@@ -115,6 +131,12 @@ def run(ctx: Ctx):
     t_inc = [c for c in own_nodes(linc) if isinstance(c, ast.Call) and isinstance(c.func, ast.Attribute) and c.func.attr == "inc"]
     if not t_chk or not t_inc:
         raise AnchorMissing("limitsOk / incLimits: ok()/inc() calls not found")
+    for c in t_chk:
+        iff = next((p_ for p_ in _anc(c) if isinstance(p_, ast.If) and any(c is x for x in ast.walk(p_.test))), None)
+        ok = iff is not None and isinstance(iff.test, ast.UnaryOp) and any(
+            isinstance(s_, ast.Return) and isinstance(s_.value, ast.Constant) and s_.value.value is False for s_ in iff.body)
+        ctx.ob("R05.1", f"{lok.qual}: failing {norm(c)[:50]} refuses", (lok, c), ok, "if not limits.ok(...): return False" if ok else
+               "a refusing task limit does not make limitsOk() answer False", key=key_of("R05.1", lok, None, "refuses"))
     src_ok = {norm(l.iter) for l in own_nodes(lok) if isinstance(l, ast.For)}
     src_inc = {norm(l.iter) for l in own_nodes(linc) if isinstance(l, ast.For)}
     ok = src_ok == src_inc == {"self.getAllLimits()"}
